@@ -135,3 +135,38 @@ int h_filter_match(const char* filter, int strict, int invert, const char* name)
     return f.match(name);
 }
 }
+
+// ---- the option handlers called directly (the dispatch chain of parse() is checked on its own, see h12.c)
+extern "C" int h_handler(int kind, int ac, const char* a1, const char* a2, const char* probeGroup, const char* probeName)
+{
+    const char* av[4] = { "prog", a1, a2, 0 };
+    for (int k = 0; k < 4; k++) { if (k == ac) av[k] = 0; else if (k > ac) av[k] = (const char*)1; }
+    CommandLineArguments args(ac, av);
+    int i = 1;
+    bool ok = true;
+    switch (kind) {
+    case 0: args.setRepeatCount(ac, av, i); break;
+    case 1: ok = args.setShuffle(ac, av, i); break;
+    case 2: args.addGroupFilter(ac, av, i); break;
+    case 3: args.addStrictGroupFilter(ac, av, i); break;
+    case 4: args.addExcludeGroupFilter(ac, av, i); break;
+    case 5: args.addExcludeStrictGroupFilter(ac, av, i); break;
+    case 6: args.addNameFilter(ac, av, i); break;
+    case 7: args.addStrictNameFilter(ac, av, i); break;
+    case 8: args.addExcludeNameFilter(ac, av, i); break;
+    case 9: args.addExcludeStrictNameFilter(ac, av, i); break;
+    case 10: ok = args.addGroupDotNameFilter(ac, av, i, "-t", false, false); break;
+    case 11: ok = args.addGroupDotNameFilter(ac, av, i, "-st", true, false); break;
+    case 12: ok = args.addGroupDotNameFilter(ac, av, i, "-xt", false, true); break;
+    case 13: ok = args.addGroupDotNameFilter(ac, av, i, "-xst", true, true); break;
+    case 14: args.addTestToRunBasedOnVerboseOutput(ac, av, i, "TEST("); break;
+    case 15: args.addTestToRunBasedOnVerboseOutput(ac, av, i, "IGNORE_TEST("); break;
+    case 16: ok = args.setOutputType(ac, av, i); break;
+    default: args.setPackageName(ac, av, i); break;
+    }
+    cfg.ok = ok;
+    cfg.index = i;
+    copyConfig(args, probeGroup, probeName);
+    return ok;
+}
+extern "C" int h_index(void) { return cfg.index; }
